@@ -489,6 +489,8 @@ class Executor:
                         raise Unsupported(f'const item {txt} did not evaluate to a single value')
                     st.env[key] = outs[0][2]
                 return st.env[key]
+        m = re.match(r'^(?:std::result::|core::result::)?Result::<.*>::(Ok|Err)\(\(\)\)$', txt)
+        if m: return Adt('Result', m.group(1), [UNIT])
         if txt == 'true': return Bool(True)
         if txt == 'false': return Bool(False)
         if txt == '()': return UNIT
